@@ -17,6 +17,7 @@ import (
 	"path/filepath"
 	"sort"
 	"strings"
+	"syscall"
 	"unicode"
 	"unicode/utf8"
 
@@ -322,8 +323,12 @@ func pickNames(n int) []string {
 
 func outPathCases() {
 	dirs := []string{"/tmp/out", "/", "out", ".", "../x", "/a/../b/", "a//b/.", "/tmp/c05 x/\u00e9"}
+	names := append([]string{}, hostile...)
+	for _, L := range []int{217, 218, 219, 220, 254, 255, 256, 300} {
+		names = append(names, longName(L, 0), longName(L, 1), longName(L, 4))
+	}
 	for _, d := range dirs {
-		for _, n := range hostile {
+		for _, n := range names {
 			for _, i := range []int{0, 8, 9, 122} {
 				if i > 0 && r.Rand.Intn(3) != 0 {
 					continue
@@ -429,14 +434,7 @@ func hexList(l []string) string {
 // out directory or exactly one intact file per attachment.
 func checkExtraction(class string, in map[string]any, jail, out string, contents []string, err error) (string, []string) {
 	inside, outside := listJail(jail, out)
-	status := "ok"
-	switch {
-	case err == nil:
-	case errors.Is(err, api.ErrAttachmentOutputCollision):
-		status = "collision"
-	default:
-		status = "error"
-	}
+	status := statusOf(err)
 	switch {
 	case len(outside) > 0:
 		r.OracleFail(class+"-escapes-outdir", in, fmt.Sprintf("created outside %q: %q", out, outside))
@@ -467,12 +465,71 @@ func checkExtraction(class string, in map[string]any, jail, out string, contents
 	return status, inside
 }
 
+// statusOf canonicalises the error of an extraction: the model predicts ok / collision / error
+// (error = a reservation marker could not be created for a reason other than EEXIST; on the test
+// file system that is ENAMETOOLONG). Anything else is unexpected and shows up as a disagreement.
+func statusOf(err error) string {
+	switch {
+	case err == nil:
+		return "ok"
+	case errors.Is(err, api.ErrAttachmentOutputCollision):
+		return "collision"
+	case errors.Is(err, syscall.ENAMETOOLONG):
+		return "error"
+	}
+	return "unexpected-" + vh.Hex([]byte(err.Error()))
+}
+
+// longName returns a name that sanitizes to exactly L bytes; variants 0..2 sanitize to the SAME
+// name ("d_BBB...B.bin"), 3 to a different one of the same length, 4 is multi-byte.
+func longName(L, variant int) string {
+	body := strings.Repeat("B", L-6) + ".bin"
+	switch variant {
+	case 0:
+		return "d_" + body
+	case 1:
+		return "../d/" + body
+	case 2:
+		return "d\\" + body
+	case 3:
+		return "d_" + strings.Repeat("C", L-6) + ".bin"
+	}
+	s := strings.Repeat("\u00e9", (L-1)/2)
+	return s + strings.Repeat("x", L-len(s))
+}
+
+// longSets: single names, colliding pairs/triples and non-colliding pairs whose output name or
+// reservation marker name (output name + 37 bytes) is around NAME_MAX = 255.
+func longSets(direct bool) [][]string {
+	var out [][]string
+	for L := 255 - 40 - 37; L <= 256; L++ {
+		boundary := (L >= 212 && L <= 222) || L >= 250
+		if !r.Thorough() && !boundary && L%4 != 0 {
+			continue
+		}
+		out = append(out, []string{longName(L, 0)}, []string{longName(L, 4)},
+			[]string{longName(L, 1), longName(L, 0)},
+			[]string{"short", longName(L, 0), longName(L, 2), longName(L, 1)},
+			[]string{longName(L, 0), longName(L, 3)},
+			[]string{longName(L, 3), "a", longName(L-1, 3), longName(L, 1)})
+		if direct {
+			out = append(out, []string{longName(L, 0), longName(L, 0)}, []string{"a", longName(L, 4), longName(L, 4)})
+		}
+	}
+	return out
+}
+
 func writeAttachmentCases() {
+	var sets [][]string
 	for k := 0; k < r.Pick(250, 2500); k++ {
 		names := pickNames(1 + r.Rand.Intn(4))
 		if k < len(hostile) {
 			names = []string{hostile[k], hostile[(k*7+3)%len(hostile)]}
 		}
+		sets = append(sets, names)
+	}
+	sets = append(sets, longSets(true)...)
+	for k, names := range sets {
 		jail, out := newJail()
 		aa := make([]model.Attachment, len(names))
 		contents := make([]string, len(names))
@@ -491,12 +548,12 @@ func writeAttachmentCases() {
 		}()
 		in := map[string]any{"fn": "writeAttachments", "names_hex": hexList(names)}
 		status, inside := checkExtraction("attachment", in, jail, out, contents, err)
-		if status == "error" {
-			status = "error:" + vh.Hex([]byte(err.Error()))
-		}
 		// the model gets the same out directory; it answers with the final set of paths
 		r.Case("writeAttachments", []string{vh.Hex([]byte(out)), hexList(names)}, status+":"+hexList(inside))
-		r.Count("class:write-" + strings.SplitN(status, ":", 2)[0])
+		r.Count("class:write-" + strings.SplitN(status, "-", 2)[0])
+		if len(names[len(names)-1]) > 150 {
+			r.Count("class:write-longname-" + strings.SplitN(status, "-", 2)[0])
+		}
 		os.RemoveAll(jail)
 	}
 }
@@ -504,11 +561,16 @@ func writeAttachmentCases() {
 // endToEnd builds PDFs whose embedded-file names are hostile, extracts them with the public API.
 func endToEnd() {
 	conf := model.NewDefaultConfiguration()
+	var sets [][]string
 	for k := 0; k < r.Pick(60, 600); k++ {
 		names := pickNames(1 + r.Rand.Intn(4))
 		if k < len(hostile)/2 {
 			names = []string{hostile[2*k], hostile[2*k+1], hostile[(k*5+1)%len(hostile)]}
 		}
+		sets = append(sets, names)
+	}
+	sets = append(sets, longSets(false)...)
+	for k, names := range sets {
 		in := map[string]any{"fn": "api.ExtractAttachments", "ids_hex": hexList(names)}
 		ctx, err := pdfcpu.CreateContextWithXRefTable(conf, types.PaperSize["A4"])
 		if err != nil {
@@ -559,11 +621,11 @@ func endToEnd() {
 			seenNames = append(seenNames, a.FileName)
 		}
 		status, inside := checkExtraction("extract-attachments", in, jail, out, contents, err)
-		if status == "error" {
-			status = "error:" + vh.Hex([]byte(err.Error()))
-		}
 		r.Case("writeAttachments", []string{vh.Hex([]byte(out)), hexList(seenNames)}, status+":"+hexList(inside))
-		r.Count("class:e2e-" + strings.SplitN(status, ":", 2)[0])
+		r.Count("class:e2e-" + strings.SplitN(status, "-", 2)[0])
+		if len(names[len(names)-1]) > 150 {
+			r.Count("class:e2e-longname-" + strings.SplitN(status, "-", 2)[0])
+		}
 		os.RemoveAll(jail)
 	}
 }
